@@ -139,6 +139,180 @@ def readAll (inf : Bool) (b plen per : Nat) : Nat → C01Bytes → List ROut
     let x := readOnce inf b plen per src
     if x.1.err = .none then x.1 :: readAll inf b plen per fuel x.2 else [x.1]
 
+/-! ## The io.Reader / io.Writer CONTRACT: scripted sources and sinks
+
+  An `io.Reader` may return `(n > 0, io.EOF)` (quic-go ends a stream that way: the read that consumes the frame
+  carrying FIN returns its bytes together with EOF), `(n > 0, some other error)`, `(0, nil)`, a single byte, or fewer
+  bytes than asked for; tcp / yamux / websocket return `(n, nil)` and then `(0, EOF)`.  A wrapper on the byte path
+  has to be transparent for ALL of them.  A source is a script of answers; the wrappers are mirrored line for line
+  with the `(n, err)` PAIR the reader below returned:
+
+    pkg/util/limit/reader.go  Reader.Read:
+        b := Burst(); if b < len(p) { p = p[:b] }
+        n, err = r.r.Read(p);  if err != nil { return }      -- named results: n AND err go to the caller, no WaitN
+        err = r.limiter.WaitN(ctx, n); return                -- n is returned also when WaitN refuses
+    pkg/util/net/conn.go      StatsConn.Read: n, err = Conn.Read(p); totalRead += int64(n); return
+                              CloseNotifyConn / ContextConn (embedded net.Conn), WrapReadWriteCloserConn (embedded
+                              io.ReadWriteCloser) and golib io.ReadWriteCloser.Read (`return rwc.r.Read(p)`): the
+                              embedded / wrapped Read itself -/
+
+/-- the error half of the `(n, err)` pair of the reader below -/
+inductive SErr where
+  | none | eof | other
+  deriving DecidableEq, Repr
+
+/-- one scripted answer: `data` is handed out (over as many calls as the caller's buffers need) and `err` comes
+    TOGETHER WITH its last byte.  `⟨d, .none⟩, ⟨[], .eof⟩` is a tcp / yamux stream's end, `⟨d, .eof⟩` a quic
+    stream's, `⟨[], .none⟩` a `(0, nil)` read, `⟨[x], .none⟩` a one-byte read -/
+structure Seg where
+  data : C01Bytes
+  err : SErr
+  deriving DecidableEq, Repr
+
+/-- `Read(p)` with `len(p) = k` on a scripted source: `(p[:n], err)` and the source afterwards.  An exhausted
+    script answers `(0, EOF)`; an error is sticky (every later call returns `(0, err)`) -/
+def srcRead (k : Nat) : List Seg → (C01Bytes × SErr) × List Seg
+  | [] => (([], .eof), [])
+  | s :: rest =>
+    if s.data.length ≤ k then
+      ((s.data, s.err), if s.err = .none then rest else [{ data := [], err := s.err }])
+    else ((s.data.take k, .none), { s with data := s.data.drop k } :: rest)
+
+/-- the bytes a source delivers: everything up to and INCLUDING the bytes that come with its first error -/
+def delivered : List Seg → C01Bytes
+  | [] => []
+  | s :: rest => if s.err = .none then s.data ++ delivered rest else s.data
+
+/-- the error that ends the source (`(0, EOF)` after the script) -/
+def finalErr : List Seg → SErr
+  | [] => .eof
+  | s :: rest => if s.err = .none then finalErr rest else s.err
+
+/-- number of reads after which any drain with non-empty buffers has reached the source's error -/
+def srcFuel : List Seg → Nat
+  | [] => 1
+  | s :: rest => s.data.length + 1 + srcFuel rest
+
+/-- what a wrapper's `Read` returned in `err` -/
+inductive PErr where
+  | none | eof | src | wait
+  deriving DecidableEq, Repr
+
+def PErr.ofS : SErr → PErr
+  | .none => .none
+  | .eof => .eof
+  | .other => .src
+
+/-- the wrappers of the byte path (reading side) -/
+inductive RW where
+  | limit (inf : Bool) (b : Nat)   -- limit.Reader over a limiter with burst `b`
+  | pass                           -- CloseNotifyConn, ContextConn, WrapReadWriteCloserConn, golib io.ReadWriteCloser
+  | stats                          -- StatsConn
+  deriving DecidableEq, Repr
+
+/-- one `Read(p)` of a wrapper stack observed from outside -/
+structure RRes where
+  got : C01Bytes        -- `p[:n]`
+  err : PErr
+  reqs : List Nat       -- the arguments of the `WaitN` calls this `Read` made (limiters of the stack, innermost first)
+  deriving DecidableEq, Repr
+
+/-- `Read(p)`, `len(p) = k`, on a stack of wrappers (outermost first) over a scripted source -/
+def readW : List RW → Nat → List Seg → RRes × List Seg
+  | [], k, src =>
+    let x := srcRead k src
+    ({ got := x.1.1, err := PErr.ofS x.1.2, reqs := [] }, x.2)
+  | .limit inf b :: ws, k, src =>
+    let x := readW ws (readerAsk b k) src           -- `if b < len(p) { p = p[:b] }; n, err = r.r.Read(p)`
+    if x.1.err = .none then                          -- `err = r.limiter.WaitN(ctx, n); return`
+      ({ got := x.1.got, err := if waitOk inf b x.1.got.length then .none else .wait,
+         reqs := x.1.reqs ++ [x.1.got.length] }, x.2)
+    else x                                           -- `if err != nil { return }` : n and err as they came
+  | .pass :: ws, k, src => readW ws k src
+  | .stats :: ws, k, src => readW ws k src           -- `totalRead += int64(n)`: `statsCount`
+
+/-- an `io.Copy`-like caller with a `plen`-byte buffer: takes `p[:n]` of EVERY read, stops at the first error -/
+def drainW (ws : List RW) (plen : Nat) : Nat → List Seg → List RRes
+  | 0, _ => []
+  | fuel + 1, src =>
+    let x := readW ws plen src
+    if x.1.err = .none then x.1 :: drainW ws plen fuel x.2 else [x.1]
+
+/-- `StatsConn.totalRead` after a drain -/
+def statsCount (rs : List RRes) : Nat := (rs.map (·.got.length)).sum
+
+/-- one scripted answer of the writer below to `Write(c)`: it takes `min take len(c)` bytes; it reports an error if
+    `err` is set or (the io.Writer contract) if it took less than `len(c)` — unless `lax`: a sink that BREAKS the
+    contract and returns a short count with a nil error -/
+structure SinkResp where
+  take : Nat
+  err : Bool
+  lax : Bool
+  deriving DecidableEq, Repr
+
+/-- `w.w.Write(c)` on a scripted sink: `(nn, err != nil)`; an exhausted script accepts everything -/
+def sinkWrite (c : C01Bytes) : List SinkResp → (Nat × Bool) × List SinkResp
+  | [] => ((c.length, false), [])
+  | s :: rest => ((min s.take c.length, s.err || (decide (min s.take c.length < c.length) && !s.lax)), rest)
+
+/-- one `Writer.Write(p)` over a scripted sink, observed from outside -/
+structure WRes where
+  n : Nat                    -- the returned count
+  err : WErr
+  reqs : List Nat            -- the arguments of the `WaitN` calls
+  offered : List C01Bytes    -- the arguments of the `w.w.Write` calls
+  took : List Nat            -- the counts the sink returned
+  deriving DecidableEq, Repr
+
+/-- `Writer.Write` line for line over a scripted sink (same loop as `writeAux`; the sink's own `(nn, err)` pair decides):
+      nn, err = w.w.Write(p[:end]); n += nn; if err != nil { return }; p = p[end:] -/
+def writeSAux (inf : Bool) (b : Nat) : Nat → List SinkResp → C01Bytes → WRes × List SinkResp
+  | 0, ss, _ => ({ n := 0, err := .none, reqs := [], offered := [], took := [] }, ss)
+  | fuel + 1, ss, p =>
+    if p.length = 0 then ({ n := 0, err := .none, reqs := [], offered := [], took := [] }, ss)
+    else
+      let e := if b < p.length then b else p.length
+      if waitOk inf b e then
+        let x := sinkWrite (p.take e) ss
+        if x.1.2 then ({ n := x.1.1, err := .sink, reqs := [e], offered := [p.take e], took := [x.1.1] }, x.2)
+        else
+          let o := writeSAux inf b fuel x.2 (p.drop e)        -- `p = p[end:]`, whatever `nn` was
+          ({ n := x.1.1 + o.1.n, err := o.1.err, reqs := e :: o.1.reqs, offered := p.take e :: o.1.offered,
+             took := x.1.1 :: o.1.took }, o.2)
+      else ({ n := 0, err := .wait, reqs := [e], offered := [], took := [] }, ss)
+
+def writeS (inf : Bool) (b : Nat) (ss : List SinkResp) (p : C01Bytes) : WRes × List SinkResp :=
+  writeSAux inf b p.length ss p
+
+/-- the bytes the sink accepted during one `Write`: of each chunk it was offered, the count it returned -/
+def takenOf : List C01Bytes → List Nat → C01Bytes
+  | c :: cs, k :: ks => c.take k ++ takenOf cs ks
+  | _, _ => []
+
+def WRes.accepted (o : WRes) : C01Bytes := takenOf o.offered o.took
+
+/-- the first limiter of a wrapper stack (the writing side of `pass` / `stats` is the embedded `Write`;
+    `StatsConn.Write`: `n, err = Conn.Write(p); totalWrite += int64(n); return`) -/
+def limOf : List RW → Option (Bool × Nat)
+  | [] => none
+  | .limit inf b :: _ => some (inf, b)
+  | _ :: ws => limOf ws
+
+/-- `Write(p)` on a wrapper stack over a scripted sink -/
+def writeW (ws : List RW) (ss : List SinkResp) (p : C01Bytes) : WRes × List SinkResp :=
+  match limOf ws with
+  | some (inf, b) => writeS inf b ss p
+  | none =>
+    let x := sinkWrite p ss
+    ({ n := x.1.1, err := if x.1.2 then .sink else .none, reqs := [], offered := [p], took := [x.1.1] }, x.2)
+
+/-- an `io.Copy`-like caller: one `Write` per piece, stops at the first error -/
+def writeManyW (ws : List RW) : List SinkResp → List C01Bytes → List WRes
+  | _, [] => []
+  | ss, p :: ps =>
+    let x := writeW ws ss p
+    if x.1.err = .none then x.1 :: writeManyW ws x.2 ps else [x.1]
+
 /-! ## x/time/rate, explicit-time API (`ReserveN(now, n)`), integer ticks, `r` tokens per tick -/
 
 structure Res where
